@@ -335,8 +335,9 @@ func upsertWitness(fail func(string, ...any)) (bool, string) {
 }
 
 // countsFinding: creating a FULLTEXT index on a table that already has one re-inserts every
-// row into the existing index's tables too; its global word counts are doubled, never return
-// to zero, and the relevance MATCH computes from them is wrong (even negative).
+// row into the existing index's tables too: every row is counted twice there, so its global
+// word counts are doubled (wrong, even negative relevance) and a later UPDATE/DELETE of such a
+// row only decrements the row counter and leaves the old words in the index.
 const countsFinding = "C51-create-doubles-counts"
 
 func countsWitness(fail func(string, ...any)) (bool, string) {
@@ -365,8 +366,6 @@ type checker struct {
 	s    *fx.Sess
 	m    *model
 	hist []string
-	// skipRelevance: the case lies in the region of C51-create-doubles-counts (listed)
-	skipRelevance bool
 }
 
 func (c *checker) history() string { return "  " + strings.Join(c.hist, ";\n  ") }
@@ -425,10 +424,6 @@ func (c *checker) checkSearch(search string, mode string) {
 		}
 		// relevance: "zero relevance means no similarity" - positive exactly for the matching
 		// rows; and, since t and its twin hold the same rows, the same value from both indexes
-		if c.skipRelevance {
-			c.st.Excluded(countsFinding)
-			continue
-		}
 		rel := map[string]map[int]float64{}
 		for _, tbl := range []string{"t", "tw"} {
 			q := "SELECT id, MATCH(" + cols + ") " + against + " FROM " + tbl
@@ -643,6 +638,12 @@ func TestC51(t *testing.T) {
 				}
 			case "reindex":
 				ix := rapid.IntRange(0, len(m.indexes)-1).Draw(rt, "ix")
+				if excludeCounts && len(m.indexes) > 1 && len(m.rows) > 0 {
+					// creating an index while another one exists and the table has rows is the
+					// region of C51-create-doubles-counts: the other index is corrupt afterwards
+					st.Excluded(countsFinding)
+					continue
+				}
 				if excludeDropFirst && len(m.indexes) > 1 && ix == 0 {
 					// indexes are named ft < ft2: dropping ft while ft2 exists is the region
 					st.Excluded(dropConfigFinding)
@@ -661,11 +662,6 @@ func TestC51(t *testing.T) {
 					cols = m.indexes[ix].cols
 				}
 				m.indexes[ix].cols = cols
-				if excludeCounts && len(m.indexes) > 1 && len(m.rows) > 0 {
-					// an index is created while another one exists and the table has rows: the
-					// other index's counts are off from here on
-					c.skipRelevance = true
-				}
 				if rapid.Bool().Draw(rt, "createsyntax") {
 					c.must("CREATE FULLTEXT INDEX " + m.indexes[ix].name + " ON t (" + strings.Join(cols, ", ") + ")")
 				} else {
